@@ -56,7 +56,7 @@ Proof.
   change (ignore_filter_for (with_return_input c) ver) with (ignore_filter_for c ver).
   destruct (ignore_filter_for c ver) as [f|]; try discriminate.
   rewrite prune_rio.
-  destruct (prune c n0 (fst live, nv) (mf_set mgr {| mr_set := filter_set f set0; mr_ver := ver; mr_applied := true |} mf0) mgr (mf_get mgr mf0)) as [[pruned n1]|e]; try discriminate.
+  destruct (prune c n0 (fst live, nv) (mf_set mgr {| mr_set := set0; mr_ver := ver; mr_applied := true |} mf0) mgr (mf_get mgr mf0)) as [[pruned n1]|e]; try discriminate.
   change (update_core (with_return_input c)) with (update_core c).
   destruct (update_core c n1 live pruned ver (mf_set mgr {| mr_set := filter_set f set0; mr_ver := ver; mr_applied := true |} mf0) mgr force) as [[[mf2 cmp] n2]|e]; try discriminate.
   rewrite Hflag in H. simpl in H.
